@@ -25,6 +25,9 @@ def truth(p):
         """kept nodes / loads reachable from function fid without crossing a kept function."""
         f = p["fns"][fid]
         for s in f["stmts"]:
+            for a in s.get("args", []):
+                if a["k"] == "callarg" and a["fn"] not in seen:
+                    first_level(a["fn"], seen | {a["fn"]}, True, acc_keeps, acc_loads)
             if s["k"] == "keep":
                 acc_keeps.add(s["path"])
             elif s["k"] == "lambda_keep":
@@ -79,6 +82,18 @@ def truth(p):
                     ks, ls = set(), set()
                     first_level(s["fn"], {s["fn"]}, True, ks, ls)
                     hs |= ks
+            elif s["k"] == "method":
+                # Cls(arg).method(): the constructor takes an argument, so the call is context dependent for dds
+                takes_args = True
+                c = p["classes"][s["cls"]]
+                if c.get("calls"):
+                    g = p["fns"][c["calls"]]
+                    if g["data_path"] is not None:
+                        hs.add(g["data_path"])
+                    else:
+                        ks, ls = set(), set()
+                        first_level(c["calls"], {c["calls"]}, True, ks, ls)
+                        hs |= ks
             heads.append((hs, takes_args))
         for i, (hs, ta) in enumerate(heads):
             if ta:
@@ -204,7 +219,8 @@ def case_job(arg):
         bad("solid edge %s -> %s missing (the function kept at %s reaches the keep of %s directly)" % (e[0], e[1], e[1], e[0]), "solid-missing-twins" if tw(e) else "solid-missing")
     for e in sorted(got_solid - solid):
         bad("solid edge %s -> %s although %s is not kept directly by the function at %s" % (e[0], e[1], e[0], e[1]), "solid-spurious-twins" if tw(e) else "solid-spurious")
-    for e in sorted(dashed - got_dashed):
+    # one edge is drawn per pair of nodes: when v also keeps u directly, the solid edge stands for both
+    for e in sorted(dashed - got_dashed - got_solid):
         bad("dashed edge %s -> %s missing (%s loads %s)" % (e[0], e[1], e[1], e[0]), "dashed-missing")
     for e in sorted(got_dashed - dashed - dashed_ok):
         bad("dashed edge %s -> %s although %s does not load %s" % (e[0], e[1], e[1], e[0]), "dashed-spurious")
